@@ -4,6 +4,8 @@
   seedtest.py confirm <worktree> <property>      confirm every <worktree>/mutations/m*/ (patch applies, full test
                                                   suite passes with it, demo fails with it and passes without it) and
                                                   copy the confirmed ones to /verif/seeded/<property>-<n>/
+  seedtest.py prun <seeded dir>...                 the same for many seeded changes in parallel, each in an isolated scratch
+                                                  worktree of /repo (PROPHY_REPO) and scratch copy of /verif; /repo is not touched
   seedtest.py run <seeded dir> [check ids...]     apply the seeded patch to /repo, run the given checks (default: the
                                                   property's own), record which report a VIOLATION, undo the patch
 """
@@ -93,8 +95,62 @@ def run(sdir, checks):
     return 0
 
 
+RELATED = {"C01": ["C19"], "C02": ["C06"], "C03": ["C05", "C07"], "C04": ["C01", "C08"], "C05": ["C03"], "C06": ["C02"],
+           "C07": ["C03"], "C08": ["C04"], "C09": ["C08"], "C10": ["C11"], "C11": ["C10"], "C12": ["C13"], "C13": ["C15"],
+           "C15": ["C13"], "C19": ["C01", "C03"], "C20": ["C16"]}
+
+
+def prun_one(sdir):
+    """run the property's own check and its related checks against the seeded change in an isolated copy:
+    a scratch worktree of /repo with the patch applied (PROPHY_REPO) and a scratch copy of /verif; /repo is untouched"""
+    sdir = os.path.abspath(sdir)
+    name = os.path.basename(sdir)
+    with open(os.path.join(sdir, "meta.json")) as fh:
+        meta = json.load(fh)
+    pid = meta["property"]
+    wt, vf = "/tmp/sw-" + name, "/tmp/vf-" + name
+    sh(["git", "-C", "/repo", "worktree", "remove", "--force", wt]); shutil.rmtree(vf, ignore_errors=True)
+    rc, o = sh(["git", "-C", "/repo", "worktree", "add", "--detach", wt, "HEAD"])
+    if rc != 0:
+        return name, {"error": o[-300:]}
+    results = {}
+    try:
+        rc, o = sh(["git", "-C", wt, "apply", os.path.join(sdir, "patch.diff")])
+        if rc != 0:
+            return name, {"error": "patch does not apply: " + o[-300:]}
+        sh(["rsync", "-a", "--exclude", "work", "--exclude", "replays", "--exclude", ".git", "--exclude", "seeded", VERIF + "/", vf + "/"])
+        env = dict(os.environ, PROPHY_REPO=wt)
+        for cid in [pid] + ([] if os.environ.get("SEED_OWN_ONLY") else RELATED.get(pid, [])):
+            try:
+                rcc, oc = sh(["./check", cid, "--tier", "quick"], cwd=vf, env=env, timeout=3600)
+            except subprocess.TimeoutExpired:
+                rcc, oc = 124, "VIOLATION property=%s replay=timeout (check did not finish in 3600 s)" % cid
+            v = [l for l in oc.split("\n") if l.startswith("VIOLATION")]
+            results[cid] = {"exit": rcc, "violations": len(v), "first": v[0][:300].replace(vf, VERIF) if v else None,
+                            "no_failing_input_found_only": bool(v) and all("no-failing-input-found" in x for x in v)}
+            if rcc not in (0, 1):
+                results[cid]["tail"] = oc[-400:]
+    finally:
+        sh(["git", "-C", "/repo", "worktree", "remove", "--force", wt]); shutil.rmtree(vf, ignore_errors=True)
+    meta.setdefault("checks", {}).update(results)
+    meta["how_checks_were_run"] = ("tools/seedtest.py prun: patch applied in a scratch worktree of /repo (PROPHY_REPO), checks run from a scratch copy "
+                                   "of /verif; equivalent to git -C /repo apply + ./check + git checkout, without touching /repo")
+    with open(os.path.join(sdir, "meta.json"), "w") as fh:
+        json.dump(meta, fh, indent=1)
+    return name, results
+
+
+def prun(sdirs, par=int(os.environ.get("SEED_PAR", "2"))):
+    from concurrent.futures import ThreadPoolExecutor
+    with ThreadPoolExecutor(par) as ex:
+        for name, res in ex.map(prun_one, sdirs):
+            print(name, json.dumps(res)); sys.stdout.flush()
+
+
 if __name__ == "__main__":
     if sys.argv[1] == "confirm":
         confirm(sys.argv[2], sys.argv[3])
+    elif sys.argv[1] == "prun":
+        prun(sys.argv[2:])
     elif sys.argv[1] == "run":
         sys.exit(run(sys.argv[2], sys.argv[3:]))
